@@ -185,6 +185,18 @@ fn c05_fams(tier: Tier) -> Vec<Fam> {
     v
 }
 
+/// Setter sequences on a fresh resampler after which the ratio (current and target) is the
+/// original one again, with no processing call in between.
+fn cancelling_prefixes() -> Vec<Vec<Op>> {
+    vec![
+        vec![Op::R(1.25, true), Op::R(1.0, false)],
+        vec![Op::R(1.25, true), Op::R(1.0, true), Op::R(1.0, false)],
+        vec![Op::R(0.8, false), Op::R(1.0, false)],
+        vec![Op::R(1.25, true), Op::R(1.25, false), Op::R(1.0, false)],
+        vec![Op::R(0.8, false), Op::R(1.0, true), Op::R(1.0, false)],
+    ]
+}
+
 fn chunk_list(l: usize) -> Vec<usize> {
     let mut v = vec![1, 2, 3, 5, 8, 13, l - 1, l, l + 1, 2 * l + 1, 64, 100, 257];
     v.sort();
@@ -332,6 +344,15 @@ impl Check for C05 {
                     for s in schedules(tier, l, max) {
                         c05_compare(&mut acc, &mk(kind, max), &s, &reference.out, tol, n_in.min(900), journal)?;
                     }
+                    // setter calls that cancel each other before any frame is processed leave the
+                    // constant ratio schedule: the stream must be the reference stream
+                    if interp != Interp::Nearest {
+                        let mut c = mk(kind, max);
+                        c.max_rel = 2.0;
+                        for prefix in cancelling_prefixes() {
+                            c05_compare_p(&mut acc, &c, &prefix, &vec![], &reference.out, tol, n_in.min(900), journal)?;
+                        }
+                    }
                     // the same schedules after a common prefix that ends with a completed ramp
                     // (the ratio schedule is identical in all runs, only the chunking after the
                     // ramped call differs); not for Nearest (ties move with the ratio)
@@ -364,6 +385,11 @@ impl Check for C05 {
                     for chunk in chunk_list(8) {
                         c05_compare(&mut acc, &Cfg::fast(kind, ratio, 1.0, chunk, degree), &vec![], &reference.out, tol, n_in, journal)?;
                     }
+                    if degree != Degree::Nearest {
+                        for prefix in cancelling_prefixes() {
+                            c05_compare_p(&mut acc, &Cfg::fast(kind, ratio, 2.0, 64, degree), &prefix, &vec![], &reference.out, tol, n_in.min(900), journal)?;
+                        }
+                    }
                 }
             }
             Fam::Fft { rate_in, rate_out } => {
@@ -373,9 +399,6 @@ impl Check for C05 {
                 let mut groups: HashMap<(usize, usize), Vec<Cfg>> = HashMap::new();
                 for chunk in 1..=maxchunk {
                     for sub in 1..=4usize {
-                        if chunk / sub == 0 {
-                            continue;
-                        }
                         for kind in [Kind::XI, Kind::XO] {
                             let c = Cfg::fft(kind, rate_in, rate_out, chunk, sub);
                             groups.entry(fft_sizes(&c)).or_default().push(c);
@@ -453,6 +476,10 @@ struct C07Item {
 
 /// Schedule entry (MASKED, k): k processing calls whose mask has every channel off.
 const MASKED: usize = usize::MAX;
+/// Schedule entry (RAMP_THEN_STEP, k), first entry only: before the stream, the relative ratio
+/// k/1000 is requested with a ramp and then again without (the second request replaces the
+/// pending ramp: a constant-ratio stream at ratio * k/1000 from the first frame on).
+const RAMP_THEN_STEP: usize = usize::MAX - 1;
 
 /// A ratio r (as an f64) whose reciprocal, as the resamplers compute it (1.0 / r), is exactly
 /// the dyadic step `t`.
@@ -525,6 +552,24 @@ fn c07_items(tier: Tier) -> Vec<C07Item> {
         for c in fine {
             items.push(C07Item { cfgs: vec![(c, vec![])], horizon: Some(3 * (1 << 22) + 1000) });
         }
+    }
+    // a ramp that is replaced by a step to the same value before any frame is processed: a
+    // constant-ratio stream from the first frame on (chunks large enough that half a chunk of
+    // ramp exceeds the constant)
+    {
+        let mut cfgs: Vec<(Cfg, Schedule)> = Vec::new();
+        for chunk in [256usize, 1024] {
+            for (x, k) in [(1.5, 1500usize), (0.75, 750)] {
+                let _ = x;
+                for kind in [Kind::SI, Kind::SO] {
+                    cfgs.push((Cfg::sinc(kind, 1.0, 2.0, chunk, 16, 4, Interp::Linear, Kernel::Probe), vec![(RAMP_THEN_STEP, k)]));
+                }
+                for kind in [Kind::FI, Kind::FO] {
+                    cfgs.push((Cfg::fast(kind, 1.0, 2.0, chunk, Degree::Linear), vec![(RAMP_THEN_STEP, k)]));
+                }
+            }
+        }
+        items.push(C07Item { cfgs, horizon: Some(64) });
     }
     // FFT: every rate pair x chunk x sub
     let maxrate = if q { 8 } else { 12 };
@@ -609,7 +654,19 @@ struct C07Acc {
 
 fn c07_one(acc: &mut C07Acc, cfg: &Cfg, sched: &Schedule, horizon: usize, journal: Option<&JournalFile>) -> Result<(), String> {
     let mut r = Runner::<f64>::new(cfg, Signal::Zero)?;
-    let ratio = cfg.nominal_ratio();
+    let mut ratio = cfg.nominal_ratio();
+    let mut sched_v: Schedule = sched.clone();
+    if let Some((RAMP_THEN_STEP, k)) = sched_v.first().copied() {
+        let x = k as f64 / 1000.0;
+        for op in [Op::R(x, true), Op::R(x, false)] {
+            if !matches!(r.apply(op).res, Res::Unit) {
+                return Err(format!("{}: {} was rejected", cfg.short(), op.text()));
+            }
+        }
+        ratio *= x;
+        sched_v.remove(0);
+    }
+    let sched = &sched_v;
     let l = cfg.filter_len() as f64;
     let bound = ratio * (l + 1.0 / ratio + 3.0) + 3.0;
     let (_fin, fout) = if cfg.kind.is_fft() { fft_sizes(cfg) } else { (0, 0) };
